@@ -218,6 +218,42 @@ def run(ctx: Ctx) -> None:
             finally:
                 torch.randint = real_randint
 
+    # ---- several formats in one autograd graph: every straight-through op rounds with ITS format (exponent, mantissa,
+    #      random-bit count, rounding mode), whichever other formats have ops in the same graph and whenever backward runs
+    pairs_ = [((4, 3, "stochastic", 3), (5, 2, "stochastic", 5)), ((4, 3, "stochastic", 2), (4, 3, "stochastic", 6)),
+              ((5, 2, "stochastic", 4), (4, 3, "nearest", 0)), ((2, 1, "nearest", 0), (3, 6, "stochastic", 3))]
+    for fa_, fb_ in pairs_:
+        fmts_ = [FPFormat(e, m, mode, srbits=sb) if mode == "stochastic" else FPFormat(e, m, mode) for (e, m, mode, sb) in (fa_, fb_)]
+        key = {"formats": [list(fa_), list(fb_)], "entry": "two formats, one graph"}
+        gen_ = torch.Generator().manual_seed(sum(fa_[:2]) * 7 + sum(fb_[:2]))
+        n = 40
+        x1 = (torch.randn(n, generator=gen_) * 2.0 ** torch.randint(-6, 4, (n,), generator=gen_).float())
+        Xs_ = [x1.unsqueeze(0).expand(1 << sb, n).contiguous() for (_, _, _, sb) in (fa_, fb_)]
+
+        def enum_randint3(low, high, size, dtype=None, **kw):
+            return (low + torch.arange(size[0], dtype=dtype or torch.int64)).unsqueeze(1).expand(tuple(size)).contiguous()
+
+        torch.randint = enum_randint3
+        try:
+            with ctx.guard("C14:two-formats", key):
+                wants_ = [f_.quantise(X_) for f_, X_ in zip(fmts_, Xs_)]
+                leaves_ = [torch.zeros_like(X_).requires_grad_(True) for X_ in Xs_]
+                outs_ = [f_.quantise_bwd(l_) for f_, l_ in zip(fmts_, leaves_)]       # both ops exist before backward runs
+                fwd_ = [f_.quantise_fwd(X_.clone().requires_grad_(True)) for f_, X_ in zip(fmts_, Xs_)]
+                sum((o_ * X_).sum() for o_, X_ in zip(outs_, Xs_)).backward()
+                ctx.evaluations += 2 * sum(X_.numel() for X_ in Xs_)
+                distinct += 2 * sum(X_.numel() for X_ in Xs_)
+                ctx.bump("two-formats", 2 * sum(X_.numel() for X_ in Xs_))
+                for k_, (w_, l_, fo_) in enumerate(zip(wants_, leaves_, fwd_)):
+                    for nm, got in (("quantise_bwd", l_.grad), ("quantise_fwd", fo_.detach())):
+                        if not torch.equal(got, w_):
+                            j = int((got != w_).any(dim=0).nonzero()[0])
+                            ctx.violation(f"C14:{nm}:other-format", f"{nm} of one format rounds differently when another format's op "
+                                          "is in the same graph (draws enumerated)", {**key, "which": k_, "x": float(x1[j])},
+                                          {"got": sorted(set(got[:, j].tolist())), "want": sorted(set(w_[:, j].tolist()))})
+        finally:
+            torch.randint = real_randint
+
     # ---- inputs of other dtypes: the rounding always runs on a float32 copy, so a value representable in float16 /
     #      bfloat16 / float64 gives, for every draw, the float32 result cast to that dtype
     for (E, M, sb) in ((4, 3, 3), (2, 0, 2), (5, 2, 4), (3, 1, 5), (2, 7, 3), (3, 7, 2), (4, 10, 3), (2, 10, 4)):
